@@ -366,10 +366,21 @@ pub fn finish(mut m: RMsg, fill: Option<u32>) -> RMsg {
         let over = pl - budget;
         match &mut m.payload {
             RPayload::Verbose(args) => {
-                if args.len() > 1 {
-                    args.pop();
-                } else if let Some(a) = args.last_mut() {
-                    shorten_arg(a, over);
+                // keep the number of arguments: shorten the bulkiest argument first, drop one only when nothing can shrink
+                let bulk = |a: &RArg| -> usize {
+                    (match &a.val {
+                        RVal::Raw(d) => d.len(),
+                        RVal::Str(s) => s.len(),
+                        _ => 0,
+                    }) + a.name.as_ref().map_or(0, |n| n.len())
+                        + a.unit.as_ref().map_or(0, |n| n.len())
+                };
+                let fattest = args.iter().enumerate().max_by_key(|(_, a)| bulk(a)).map(|(i, a)| (i, bulk(a)));
+                match fattest {
+                    Some((i, b)) if b > 0 => shorten_arg(&mut args[i], over),
+                    _ => {
+                        args.pop();
+                    }
                 }
             }
             RPayload::NonVerbose(_, d) | RPayload::Control(_, d) => {
@@ -530,6 +541,9 @@ pub fn classes_of(m: &RMsg) -> Vec<&'static str> {
     if let RPayload::Verbose(a) = &m.payload {
         if a.len() >= 16 {
             c.push("noar>=16");
+        }
+        if a.len() == 255 {
+            c.push("noar=255");
         }
         if a.is_empty() {
             c.push("noar=0");
